@@ -359,3 +359,14 @@ def gl_table_env():
 spec("Length", "cubic_length", GL_T + GL_C + pp("p0", "p1", "p2", "p3"), ["v"], "ArcLengthMixin.length on a CubicBezier (Gauss-Legendre; tables as parameters)")(_with_tables(lambda: [cub().length]))
 spec("Length", "quad_length", GL_T + GL_C + pp("p0", "p1", "p2"), ["v"], "ArcLengthMixin.length on a QuadraticBezier")(_with_tables(lambda: [quad().length]))
 spec("Length", "line_length", pp("p0", "p1"), ["v"], "Line.length")(lambda: [lin().length])
+
+# =============================================================================== Lookup (C15)
+
+def _line_tofpoint():
+    import io, contextlib
+    with contextlib.redirect_stdout(io.StringIO()):     # the degenerate branch prints a diagnostic
+        r = lin().tOfPoint(P("q"))
+    return [r]
+
+
+spec("Lookup", "line_tOfPoint", pp("p0", "p1", "q"), None, "Line.tOfPoint(point) (its_on_the_line_i_swear=False)")(_line_tofpoint)
